@@ -276,7 +276,7 @@ func init() {
 					}
 				}
 			}, func() *c15Env { return &c15Env{} }, c15Check)
-		explore.Product(c.R, "object-pairs-and-rows", explore.PartOpt{History: 64, Bound: "one frame per scene (the emulator instance is reused from scene to scene, LCD off/on in between)", Domain: "two overlapping objects dx,dy in {-7,-4,-1,0,1,4,7} x priority/palette combinations (OAM in X order); ten objects on one line"},
+		explore.Product(c.R, "object-pairs-and-rows", explore.PartOpt{History: 64, Bound: "one frame per scene (the emulator instance is reused from scene to scene, LCD off/on in between)", Domain: "two overlapping objects dx,dy in {-7,-4,-1,0,1,4,7} x priority/palette combinations (OAM in X order); ten objects on one line, alone and with later OAM entries on the neighbouring lines"},
 			func(yield func(c15Scene) bool) {
 				ds := []int{-7, -4, -1, 0, 1, 4, 7}
 				for _, dx := range ds {
@@ -308,6 +308,20 @@ func init() {
 						}
 						s := base
 						s.Objs = objs
+						if !yield(s) {
+							return
+						}
+						// the same ten plus later OAM entries on the lines directly above and below (never more than ten
+						// on any line): the scan of a full line must not leave anything behind for its neighbours
+						more := append([]c15Obj(nil), objs...)
+						if y >= 24 {
+							more = append(more, c15Obj{y - 8, 160, 31, 0x10})
+						}
+						if y <= 144 {
+							more = append(more, c15Obj{y + 8, 164, 32, 0x00})
+						}
+						more = append(more, c15Obj{uint8((int(y)+60)%140 + 16), 166, 33, 0x20})
+						s.Objs = more
 						if !yield(s) {
 							return
 						}
